@@ -1062,6 +1062,17 @@ func RunGated(e *Env) {
 			}
 			runTwoManagers(e, rep)
 		}
+		lrng := e.Rand(2121)
+		for i := 0; i < e.Pick(60, 2000); i++ {
+			rr := rand.New(rand.NewSource(lrng.Int63()))
+			if e.Of > 1 && i%e.Of != e.Batch {
+				continue
+			}
+			if e.R.NumViolations() > 50 {
+				break
+			}
+			g.runLeftoverRequest(i, rr)
+		}
 	}
 }
 
